@@ -184,7 +184,11 @@ def scn_rest(p, res):
                     n += 1
                     if o.d != 'Z':
                         bad = (ctx, o)
-        if bad and f.short not in REST_CONFIRMED:
+        if bad and bad[1].d == 'U' and not any(o.kind in (NONE, FNN) and o.d in ('P', 'N', 'NN', 'NP') for ctx, outs in by_func[q] for o in outs):
+            ctx, o = bad
+            res.undecided('falsy return of %s with the cursor at an unknown displacement' % f.short,
+                          'the cursor is positioned by code the cursor domain cannot follow (a table of consumers, a computed position)')
+        elif bad and f.short not in REST_CONFIRMED:
             ctx, o = bad
             res.undecided('falsy return of %s with the cursor moved (displacement %s)' % (f.short, o.d),
                           'not one of the consumers whose callers were confirmed to rely on restore-on-failure')
